@@ -34,6 +34,7 @@ import (
 	"github.com/ethereum/go-ethereum/crypto"
 	chainparams "github.com/palomachain/paloma/v2/app/params"
 	xchain "github.com/palomachain/paloma/v2/internal/x-chain"
+	"github.com/palomachain/paloma/v2/util/eventbus"
 	"github.com/palomachain/paloma/v2/verifharness/emit"
 	consensuskeeper "github.com/palomachain/paloma/v2/x/consensus/keeper"
 	"github.com/palomachain/paloma/v2/x/consensus/keeper/consensus"
@@ -132,6 +133,8 @@ type qenv struct {
 	cons *consensuskeeper.Keeper
 	vs   *vsWrap
 	tre  *treasurykeeper.Keeper
+	evm  *evmkeeper.Keeper
+	met  metrixkeeper.Keeper
 	vals []sdk.ValAddress
 }
 
@@ -171,8 +174,20 @@ func newQEnv(t *testing.T) *qenv {
 	*evmK = *evmkeeper.NewKeeper(cdc, runtime.NewKVStoreService(keys[evmtypes.StoreKey]), "", cons, vs, ac, &met, *tre)
 	cons.LateInject(evmK)
 	reg.Add(evmK)
+	// a skyway keeper of an earlier batch history listens to chain activations with a store of its own: not here
+	eventbus.EVMActivatedChain().Unsubscribe("skyway-keeper")
 	for i, c := range qchains {
 		if err := evmK.AddSupportForNewChain(ctx, c, uint64(i+1), 123, "0x1234", big.NewInt(55)); err != nil {
+			t.Fatal(err)
+		}
+		// active, with the compass id the queued messages carry: the valset publisher only serves active chains
+		if err := evmK.ActivateChainReferenceID(ctx, c, &evmtypes.SmartContract{Id: 1}, "0x5A3E98aA540B2C3545E1DbA2D5e8B3e3e8bD3c7e", []byte("compass-"+c)); err != nil {
+			t.Fatal(err)
+		}
+	}
+	for _, v := range e.vals {
+		if err := met.VerifSetValidatorMetrics(ctx, v, &metrixtypes.ValidatorMetrics{ValAddress: v.String(), Uptime: sdkmath.LegacyOneDec(),
+			SuccessRate: sdkmath.LegacyOneDec(), ExecutionTime: sdkmath.NewInt(100), FeatureSet: sdkmath.LegacyOneDec()}); err != nil {
 			t.Fatal(err)
 		}
 	}
@@ -181,7 +196,7 @@ func newQEnv(t *testing.T) *qenv {
 		snap.Validators = append(snap.Validators, valsettypes.Validator{Address: v, ShareCount: sdkmath.NewInt(1), State: valsettypes.ValidatorState_ACTIVE})
 	}
 	vs.snap = snap
-	e.ctx, e.cons, e.vs, e.tre = ctx, cons, vs, tre
+	e.ctx, e.cons, e.vs, e.tre, e.evm, e.met = ctx, cons, vs, tre, evmK, met
 	return e
 }
 
@@ -215,6 +230,9 @@ type qhist struct {
 	latent  bool
 	viol    bool
 	moved   map[uint64]bool // items that went through the latent ReassignValidator
+	snapID  uint64          // id of the harness-built valset snapshot
+	shares  [nVals]int64
+	lastPub string          // what the last published snapshot looked like (members, shares)
 }
 
 type acctRow struct {
@@ -895,6 +913,121 @@ func (h *qhist) opEndBlock() {
 	}
 }
 
+// opPublish: a new valset snapshot is built (new id; the validators' CURRENT external accounts; shares changed or not; a
+// trait added to an account or not) and published through the real evm keeper (OnSnapshotBuilt's
+// PublishSnapshotToAllChains -> PublishValsetToChain -> SendValsetMsgForChain): pending UpdateValset messages of older
+// snapshots - possibly already signed - are superseded.  What the publisher did to the queues is read back: deleted messages
+// are Remove steps, queued ones Put steps; a message whose content changed IN PLACE is a Replace step (Put with
+// MsgIDToReplace keeps SignData - the oracle then re-verifies what is left on it).
+func (h *qhist) opPublish(sameMembers bool) {
+	r := h.run.Rng
+	h.snapID++
+	if h.snapID < 2 {
+		h.snapID = 2
+	}
+	if !sameMembers && r.Intn(2) == 0 {
+		h.shares[r.Intn(nVals)] += int64(1 + r.Intn(3))
+	}
+	snap := &valsettypes.Snapshot{Id: h.snapID, Height: h.e.ctx.BlockHeight(), CreatedAt: h.e.ctx.BlockTime(), TotalShares: sdkmath.ZeroInt()}
+	desc := ""
+	for v, val := range h.e.vals {
+		if h.shares[v] == 0 {
+			h.shares[v] = 1
+		}
+		var infos []*valsettypes.ExternalChainInfo
+		for _, row := range h.reg[v] {
+			info := &valsettypes.ExternalChainInfo{ChainType: "evm", ChainReferenceID: row.chain, Address: row.addr, Pubkey: row.key}
+			if r.Intn(4) == 0 {
+				info.Traits = []string{"mev"} // changes the snapshot, not what is published to the chain
+			}
+			infos = append(infos, info)
+			desc += fmt.Sprintf("%d:%s:%s:%d|", v, row.chain, row.addr, h.shares[v])
+		}
+		snap.Validators = append(snap.Validators, valsettypes.Validator{Address: val, ShareCount: sdkmath.NewInt(h.shares[v]), State: valsettypes.ValidatorState_ACTIVE, ExternalChainInfos: infos})
+		snap.TotalShares = snap.TotalShares.Add(sdkmath.NewInt(h.shares[v]))
+	}
+	how := "publish-valset:members-changed"
+	if desc == h.lastPub {
+		how = "publish-valset:same-members-new-id"
+	}
+	h.lastPub = desc
+	h.e.vs.snap = snap
+	before := map[uint64]itemView{}
+	for _, iv := range h.allItems() {
+		before[iv.id] = iv
+	}
+	if err := h.e.evm.PublishSnapshotToAllChains(h.e.ctx, snap, true); err != nil {
+		h.t.Fatalf("PublishSnapshotToAllChains: %v", err)
+	}
+	h.run.Count("op", how)
+	type st struct {
+		coq string
+		rep map[string]any
+	}
+	var steps []st
+	after := map[uint64]bool{}
+	var fresh []itemView
+	for _, iv := range h.allItems() {
+		after[iv.id] = true
+		old, was := before[iv.id]
+		if !was {
+			fresh = append(fresh, iv)
+			continue
+		}
+		_, ob, _ := describe(old.em)
+		_, nb, _ := describe(iv.em)
+		if ob != nb {
+			h.run.Count("publish-effect", fmt.Sprintf("changed in place (%d signatures on it)", len(iv.qm.GetSignData())))
+			steps = append(steps, st{fmt.Sprintf("C06.QReplace %d %d %d", qchainID(iv.chain), iv.id, idOf(h.bodyIDs, nb)),
+				map[string]any{"op": how + " -> message content replaced in place", "id": iv.id, "chain": iv.chain, "signatures_on_it": len(iv.qm.GetSignData())}})
+		}
+	}
+	var gone []uint64
+	for id := range before {
+		if !after[id] {
+			gone = append(gone, id)
+		}
+	}
+	sort.Slice(gone, func(i, j int) bool { return gone[i] < gone[j] })
+	var rm []st
+	for _, id := range gone {
+		old := before[id]
+		h.run.Count("publish-effect", fmt.Sprintf("superseded update deleted (signed: %v)", len(old.qm.GetSignData()) > 0))
+		rm = append(rm, st{fmt.Sprintf("C06.QRemove %d %d", qchainID(old.chain), id), map[string]any{"op": how + " -> pending valset update deleted", "id": id, "chain": old.chain}})
+		for i, x := range h.items {
+			if x == id {
+				h.items = append(h.items[:i], h.items[i+1:]...)
+				break
+			}
+		}
+	}
+	steps = append(rm, steps...)
+	for _, iv := range fresh {
+		kind, body, _ := describe(iv.em)
+		h.run.Count("publish-effect", "valset update queued")
+		h.items = append(h.items, iv.id)
+		h.chainOf[iv.id] = iv.chain
+		steps = append(steps, st{fmt.Sprintf("C06.QPut %d %d %d %d %s", qchainID(iv.chain), kind, idOf(h.bodyIDs, body), idOf(h.relIDs, lowerOf(iv.em.AssigneeRemoteAddress)), emit.Bool(iv.qm.GetRequireGasEstimation())),
+			map[string]any{"op": how + " -> valset update queued", "id": iv.id, "chain": iv.chain, "valset_id": h.snapID, "relayer": iv.em.AssigneeRemoteAddress}})
+	}
+	if len(steps) == 0 {
+		h.run.Count("publish-effect", "nothing")
+		h.replay = append(h.replay, map[string]any{"op": how, "snapshot_id": h.snapID})
+		h.observe(how)
+		return
+	}
+	for i, x := range steps {
+		if i+1 < len(steps) {
+			x.rep["outcome"] = 0
+			h.replay = append(h.replay, x.rep)
+			h.steps = append(h.steps, fmt.Sprintf("C06.QStepNoObs (%s) 0", x.coq))
+			h.okOps++
+			continue
+		}
+		h.step(x.coq, 0, x.rep)
+	}
+}
+
 func (h *qhist) opRemove() {
 	id, chain, ok := h.pickItem()
 	if !ok {
@@ -1017,8 +1150,10 @@ func runQueueHistory(t *testing.T, run *emit.Run, latent bool) *qhist {
 			h.opSign()
 		case k < 55:
 			h.opSignMulti()
-		case k < 70:
+		case k < 68:
 			h.opEstimates()
+		case k < 72:
+			h.opPublish(r.Intn(2) == 0)
 		case k < 82:
 			h.opEndBlock()
 		case k < 88:
